@@ -170,7 +170,8 @@ LTop ==        \* _eval_throttle; with _lock: pop while running < throttle; then
          b == IF Bug = "lifo" /\ n > 0 THEN SubSeq(queue, Len(queue) - n + 1, Len(queue)) ELSE SubSeq(queue, 1, n)
          rest == IF Bug = "lifo" /\ n > 0 THEN SubSeq(queue, 1, Len(queue) - n) ELSE SubSeq(queue, n + 1, Len(queue))
      IN /\ queue' = rest
-        /\ running' = running + n
+        \* seeded model bug unlimited_uncounted (change C07-r4m1): the unlimited fast path hands the queue over without counting
+        /\ running' = running + (IF Bug = "unlimited_uncounted" /\ Unlim(lthr) THEN 0 ELSE n)
         /\ IF ~AsShipped_D6 /\ n > 0
              THEN /\ batch' = b /\ pc' = [pc EXCEPT ![LOOP] = "l_popset"]
                   /\ NoEmit /\ UNCHANGED <<jst, edl, wt>>
